@@ -12,8 +12,8 @@ from . import _c05_reg as R
 from . import _c05_tensor as CT
 from ._c05_reg import op
 
-K = gen.build_ktensor
-TT = gen.build_ttensor
+K = R.CS.build_ktensor
+TT = R.CS.build_ttensor
 SUM = R.build_sumtensor
 
 
